@@ -583,3 +583,70 @@ def gen_packed(rng, tier):
                     ln -= 1
             ops.append(f"packed.hist b={hx(b)} s={hx(S)} v={var} n={hx(n)} init={rng.choice(['0', 'f'])} " + " ".join(steps))
     return ops
+
+
+# ---------------------------------------------------------------- C08 bitmap histories
+def gen_bitmap(rng, tier):
+    ops = []
+    nh = 250 if tier == "quick" else 4000
+    edge = [0, 1, 7, 8, 255, 256, 4095, 4096, 4097, 32767, 32768, 65534, 65535]
+
+    def val():
+        return rng.choice(edge) if rng.random() < 0.3 else rng.randrange(65536)
+
+    def rng_pair(longp):
+        if rng.random() < longp:
+            ln = rng.choice([4096, 4097, 4098, 5000, 9000, 30000, 65535])
+        else:
+            ln = rng.choice([0, 1, 2, 50, 300, 4095, 4096])
+        lo = rng.randrange(0, 65536 - min(ln, 65535))
+        hi = min(65535, lo + ln)
+        return lo, hi
+
+    for h in range(nh):
+        toks = []
+        style = h % 5
+        n = rng.randint(6, 40)
+        # seeds that put the set near 4096 members
+        if style == 0:
+            toks.append(f"addr:0:{hx(rng.choice([4094, 4095, 4096]))}")
+        elif style == 1:
+            lo, hi = rng_pair(1.0)
+            toks.append(f"addr:{hx(lo)}:{hx(hi)}")
+        elif style == 2:
+            toks.append(f"add:{hx(val())}")
+            lo, hi = rng_pair(1.0)
+            toks.append(f"addr:{hx(lo)}:{hx(hi)}")   # long range on a non-empty set
+        elif style == 3:
+            toks.append(f"b.addr:0:{hx(rng.choice([100, 4096, 4097, 6000]))}")
+            toks.append(f"addr:{hx(50)}:{hx(rng.choice([60, 4200, 8000]))}")
+        for _ in range(n):
+            c = rng.random()
+            p = "b." if rng.random() < 0.25 else ""
+            if c < 0.25:
+                toks.append(f"{p}add:{hx(val())}")
+            elif c < 0.45:
+                # removals aimed at the populated region so that cardinality crosses 4096 downwards
+                v = rng.randrange(0, 4200) if rng.random() < 0.6 else val()
+                toks.append(f"{p}rem:{hx(v)}")
+            elif c < 0.55:
+                lo, hi = rng_pair(0.4)
+                toks.append(f"{p}addr:{hx(lo)}:{hx(hi)}")
+            elif c < 0.63:
+                lo, hi = rng_pair(0.3)
+                toks.append(f"{p}remr:{hx(lo)}:{hx(hi)}")
+            elif c < 0.67:
+                toks.append(f"{p}clear")
+            elif c < 0.72:
+                toks.append(f"{p}clone")
+            elif c < 0.78:
+                vs = ",".join(hx(val()) for _ in range(rng.randint(1, 12)))
+                toks.append(f"{p}addm:{vs}")
+            elif c < 0.86:
+                toks.append(f"{p}enc")
+            elif c < 0.97:
+                toks.append(rng.choice(["or", "and", "xor", "andnot"]))
+            else:
+                toks.append("swap")
+        ops.append("bitmap.hist " + " ".join(toks))
+    return ops
